@@ -38,5 +38,7 @@ SEEDED = [
     ("C19-7", "C19-REC"),
     ("C19-8", "C19-LIN"),
     ("C19-9", "C19-LIN"),
+    ("C19-10", "C19-LIN"),
+    ("C19-11", "C19-TOTAL"),
 ]
 MUTANTS = list(MUTANTS) + [_P("seed-" + sid, _os.path.join(_SEEDS, sid, "patch.diff"), rule) for sid, rule in SEEDED if _os.path.exists(_os.path.join(_SEEDS, sid, "patch.diff"))]
